@@ -52,14 +52,17 @@ theorem C14_dynamic_content (c b : Bytes) (d : Nat) :
 
 /-! ## size-prefixed writes refuse containers that do not fit the prefix -/
 
-theorem C14_prefix_refuses (width count : Nat) (payload : Bytes) (h : count > 2 ^ (8 * width) - 1) :
-    writePrefixed width payload count = .error .refused := by
+theorem C14_prefix_refuses (width count : Nat) (signed : Bool) (payload : Bytes) (h : count > prefixMax width signed) :
+    writePrefixed width signed payload count = .error .refused := by
   unfold writePrefixed; rw [if_pos h]
 
-theorem C14_prefix_accepts (width count : Nat) (payload : Bytes) (h : count ≤ 2 ^ (8 * width) - 1) :
-    ∃ pre, writePrefixed width payload count = .ok (pre ++ payload) ∧ pre.length = width := by
+theorem C14_prefix_accepts (width count : Nat) (signed : Bool) (payload : Bytes) (h : count ≤ prefixMax width signed) :
+    ∃ pre, writePrefixed width signed payload count = .ok (pre ++ payload) ∧ pre.length = width := by
   unfold writePrefixed; rw [if_neg (by omega)]
   exact ⟨_, rfl, by simp⟩
+
+/-- the limits: 255 / 65535 for unsigned one- and two-byte prefixes, 127 / 32767 for signed ones -/
+example : prefixMax 1 false = 255 ∧ prefixMax 2 false = 65535 ∧ prefixMax 1 true = 127 ∧ prefixMax 2 true = 32767 := by decide
 
 /-! ## typed writes and typed reads are mutual inverses (the codecs) -/
 
